@@ -124,7 +124,16 @@ func pipeScenario(r *rand.Rand, kind int) (desc string, steps []readStep) {
 		}
 		return sb.String()
 	}
-	switch kind % 6 {
+	switch kind % 8 {
+	case 6: // the input ends in the middle of a multi-byte character (in a comment, in a string, at toplevel)
+		tail := pickS(r, "# caf\xc3", "print \"\xe2\x82", "print 1\n\xc2", "def b {\n f = 1 }\n\xe2")
+		st := chopped(lines(4, func(int) bool { return false })+tail, 9, r)
+		return "truncated-rune-at-end", st
+	case 7: // a read error that wraps io.EOF
+		st := chopped(lines(8, func(i int) bool { return false }), 15, r)
+		k := 1 + len(st)/2
+		st = append(st[:k], readStep{err: errWrapsEOF})
+		return "read-error wrapping io.EOF", st
 	case 0: // many erroneous lines read a few bytes at a time: diagnostics while the lexer refills
 		n := 20 + r.Intn(60)
 		m := 5 + r.Intn(30)
@@ -212,7 +221,7 @@ func drivePipe(args []string) int {
 		ret := 0
 		switch {
 		case e == nil:
-		case errors.Is(e, errScripted):
+		case errors.Is(e, errScripted) || e == errWrapsEOF:
 			ret = 3
 		default:
 			ret = 1
